@@ -236,11 +236,14 @@ func NTTSparseAndMontgomery(r *ring.Ring, metadata *MetaData, pol ring.Poly) {
 					}
 				}
 			} else {
+				// Maps the coefficients in Y = X^{N/n} to coefficients in X: coefficient j
+				// moves to position j*gap and the positions in between are zero.
 				for j := n - 1; j >= 0; j-- {
-					coeffs[j*gap] = coeffs[j]
-					for j := 1; j < gap; j++ {
-						coeffs[j*gap-j] = 0
+					c := coeffs[j]
+					for w := 1; w < gap; w++ {
+						coeffs[j*gap+w] = 0
 					}
+					coeffs[j*gap] = c
 				}
 			}
 		}
